@@ -140,6 +140,10 @@ def main(argv=None):
     sd.add_argument('--repo', default='/repo')
     sd.add_argument('-j', '--jobs', type=int, default=min(16, os.cpu_count() or 1))
     sd.add_argument('--only', default=None)
+    nt = sub.add_parser('neutral')
+    nt.add_argument('--repo', default='/repo')
+    nt.add_argument('-j', '--jobs', type=int, default=min(16, os.cpu_count() or 1))
+    nt.add_argument('--only', default=None)
     a = ap.parse_args(argv)
     seed = int(os.environ.get('VERIF_SEED', '0') or 0)
     if a.cmd == 'check':
@@ -152,6 +156,9 @@ def main(argv=None):
     if a.cmd == 'selftest':
         from .selftest import driver
         return driver.main(a)
+    if a.cmd == 'neutral':
+        from .selftest import neutral
+        return neutral.main(a)
     if a.cmd == 'seeded':
         from .selftest import seeded
         return seeded.main(a)
